@@ -28,17 +28,43 @@ def _prune(g):
     g._preds = None
 
 
-def specialise(prog, fn, discr_expr, value, rounds=6):
-    """copy of fn under the assumption `discr_expr == value` (discr_expr: the symbolic spelling of a switch operand in fn)"""
+def fold(v):
+    """constant folding on a symbolic value: Not / Eq / Ne / BitAnd / BitOr over c:N operands"""
+    prev = None
+    while prev != v:
+        prev = v
+        v = re.sub(r"\(Not c:([01])\)", lambda m: "c:%d" % (1 - int(m.group(1))), v)
+        v = re.sub(r"\(c:(-?\d+) (Eq|Ne) c:(-?\d+)\)", lambda m: "c:%d" % int((int(m.group(1)) == int(m.group(3))) == (m.group(2) == "Eq")), v)
+        v = re.sub(r"\(c:([01]) (BitAnd|BitOr|BitXor) c:([01])\)", lambda m: "c:%d" % {"BitAnd": int(m.group(1)) & int(m.group(3)), "BitOr": int(m.group(1)) | int(m.group(3)),
+                                                                                      "BitXor": int(m.group(1)) ^ int(m.group(3))}[m.group(2)], v)
+    return v
+
+
+def specialise(prog, fn, discr_expr=None, value=None, rounds=8, discr=None, calls=None):
+    """copy of fn under assumptions: `discr` maps the symbolic spelling of a switch operand to its value (the positional pair discr_expr/value is one such
+    entry), `calls` maps the block of a call to the constant its result is assumed to have. Decided switches become gotos, blocks no longer reachable are
+    hidden, and switches on values that fold to constants are decided in turn (conditional constant propagation)."""
+    discr = dict(discr or {})
+    if discr_expr is not None:
+        discr[discr_expr] = value
     raw = copy.deepcopy(fn.raw)
+    raw["blocks"] = copy.deepcopy(fn.blocks)
+    raw["locals"] = list(fn.locals)
     g = Fn(fn.crate, raw)
     g.owner, g.closures = fn.owner, fn.closures
     S0 = Sym(prog, fn)
     for bl in g.blocks:
         t = bl["term"]
-        if t["t"] == "switch" and not bl["cleanup"] and S0.val(t["discr"]) == discr_expr:
-            tgt = next((c[1] for c in t["cases"] if c[0] == value), t["otherwise"])
+        if t["t"] == "switch" and not bl["cleanup"] and S0.val(t["discr"]) in discr:
+            v = discr[S0.val(t["discr"])]
+            tgt = next((c[1] for c in t["cases"] if c[0] == v), t["otherwise"])
             bl["term"] = {"t": "goto", "succ": [tgt], "sp": t.get("sp")}
+    for b, v in (calls or {}).items():
+        bl = g.blocks[b]
+        t = bl["term"]
+        if t["t"] == "call" and t.get("succ"):
+            bl["stmts"].append({"lhs": t["dest"], "rhs": {"rv": "use", "ops": [{"k": "const", "ty": "bool", "int": v, "bits": 8}]}, "sp": t.get("sp")})
+            bl["term"] = {"t": "goto", "succ": [t["succ"][0]], "sp": t.get("sp"), "assumed_call": t.get("callee")}
     for _ in range(rounds):
         _prune(g)
         S = Sym(prog, g)
@@ -47,7 +73,7 @@ def specialise(prog, fn, discr_expr, value, rounds=6):
             t = bl["term"]
             if t["t"] != "switch" or bl["cleanup"]:
                 continue
-            m = re.fullmatch(r"c:(-?\d+)", S.val(t["discr"]))
+            m = re.fullmatch(r"c:(-?\d+)", fold(S.val(t["discr"])))
             if m:
                 v = int(m.group(1))
                 tgt = next((c[1] for c in t["cases"] if c[0] == v), t["otherwise"])
